@@ -349,6 +349,10 @@ impl<'a> CaseEnv<'a> {
     /// If `f` matches an open known finding of `prop`, count the hit and return its id: the check can
     /// then carry on with the rest of the case instead of ending it.
     pub fn kf_absorb(&mut self, prop: &str, f: &Failure) -> Option<String> {
+        if self.replay {
+            // a replayed case reports its failure; the caller decides whether it is a known finding
+            return None;
+        }
         let id = self.kf.matches(prop, f)?;
         if self.counting {
             *self.stats.borrow_mut().kf_hits.entry(id.clone()).or_insert(0) += 1;
@@ -454,7 +458,26 @@ impl Ctx {
                 }
                 let mut env = CaseEnv { kf, tier, stats, counting, replay: false };
                 db::clear_panics();
-                match check(&case, &mut env) {
+                let mut outcome = check(&case, &mut env);
+                if let Err(f) = &outcome {
+                    // A panic recorded on a database thread without a failing call may belong to an abandoned
+                    // instance of an earlier case (its directory is gone): attribute it only if it repeats.
+                    if f.kind == "panic" && f.tags.iter().any(|t| t == "db_thread") && !f.tags.iter().any(|t| t == "hang") {
+                        std::thread::sleep(std::time::Duration::from_millis(200));
+                        db::clear_panics();
+                        let mut env2 = CaseEnv { kf, tier, stats, counting: false, replay: false };
+                        let again = check(&case, &mut env2);
+                        if again.is_ok() {
+                            if counting {
+                                stats.borrow_mut().inconclusive += 1;
+                            }
+                            outcome = Ok(());
+                        } else {
+                            outcome = again;
+                        }
+                    }
+                }
+                match outcome {
                     Ok(()) => Ok(()),
                     Err(f) => {
                         if f.is_busy_hang() {
